@@ -38,11 +38,16 @@ ReentCtx(t) ==
      /\ n < m /\ stack[t][n].k \in {"chk", "inv", "init", "new"} /\ stack[t][m].k = stack[t][n].k
      /\ (IF stack[t][n].k = "chk" THEN stack[t][n].f = stack[t][m].f ELSE stack[t][n].o = stack[t][m].o)
 ConcCtx(t) == \E u \in Tasks \ {t} : status[u] \in {"ready", "susp"}
+\* a checked call made while another checked call of the same task is in progress (not necessarily of the same
+\* function or object)
+NestedCtx(t) == \E n \in DOMAIN stack[t] : \E m \in DOMAIN stack[t] :
+                  n < m /\ stack[t][n].k \in {"chk", "inv", "init", "new"} /\ stack[t][m].k \in {"chk", "inv", "init", "new"}
+                  /\ (stack[t][n].f # stack[t][m].f \/ stack[t][n].o # stack[t][m].o)
 
 Diag(t, m, r) ==
   ToJson([tid |-> tid, pid |-> Traces[tid].pid, at |-> l, verdict |-> "reject",
           exp |-> <<m.e, m.t, m.id, m.o, m.a, m.v, m.cls, m.old, m.res, m.ip>>, ph |-> m.ph, sk |-> m.sk,
-          act |-> r, reent |-> ReentCtx(t), conc |-> ConcCtx(t), depth |-> Len(stack[t])])
+          act |-> r, reent |-> ReentCtx(t), conc |-> ConcCtx(t), nested |-> NestedCtx(t), depth |-> Len(stack[t])])
 
 Ok == ToJson([tid |-> tid, pid |-> Traces[tid].pid, at |-> l, verdict |-> "ok"])
 
@@ -64,7 +69,7 @@ Advance ==
      IF r[1] = "abort" \/ ~(CanStep(t) \/ CanSched(t))
        THEN /\ verdict' = ToJson([tid |-> tid, pid |-> Traces[tid].pid, at |-> l, verdict |-> "reject",
                                   exp |-> <<"none", t, 0, 0, 0, 0, "", <<>>, 0, {}>>, ph |-> "", sk |-> FALSE, act |-> r,
-                                  reent |-> FALSE, conc |-> FALSE, depth |-> 0])
+                                  reent |-> FALSE, conc |-> FALSE, nested |-> FALSE, depth |-> 0])
             /\ UNCHANGED <<vars, tid, l>>
        ELSE /\ (Step(t) \/ Sched(t))
             /\ IF emit'.e = "silent" THEN l' = l /\ verdict' = "open"
